@@ -10,6 +10,7 @@ import B3.Tree.Blocks
 import B3.Tree.Arith
 import B3.Tree.Hasher
 import B3.Tree.Wide
+import B3.Tree.Pair
 namespace B3
 
 /-- the two single-block kernels of `Platform` (`compress_in_place`, `compress_xof`), on words -/
@@ -122,14 +123,11 @@ def wide (key : CV) (flags : UInt8) (sd : Nat) (t : Nat) (input : List UInt8) : 
 
 /-- the `while num_cvs > 2` loop of `compress_subtree_to_parent_node` -/
 def condense (key : CV) (flags : UInt8) (cvs : List CV) : List CV :=
-  if h : 2 < cvs.length then condense key flags (Tr.pairUp (parentCV K key flags) cvs) else cvs
-termination_by cvs.length
-decreasing_by rw [Tr.pairUp_length]; omega
+  Hs.condense (parentCV K key flags) cvs
 
 /-- `compress_subtree_to_parent_node`: the two children of the subtree's top parent node -/
 def toParentNode (key : CV) (flags : UInt8) (sd : Nat) (t : Nat) (input : List UInt8) : CV × CV :=
-  let cvs := condense K key flags (wide K key flags sd t input)
-  (cvs.getD 0 key, cvs.getD 1 key)
+  Hs.toPair (parentCV K key flags) key 10 (leafCV K key flags) sd t input
 
 /-- `hash_all_at_once` -/
 def hashAllAtOnce (key : CV) (flags : UInt8) (sd : Nat) (input : List UInt8) : Node :=
@@ -137,6 +135,22 @@ def hashAllAtOnce (key : CV) (flags : UInt8) (sd : Nat) (input : List UInt8) : N
   else
     let p := toParentNode K key flags sd 0 input
     parentOutput key flags p.1 p.2
+
+/-- key words as the crate's entry points compute them for each mode (`IV`,
+`words_from_le_bytes_32(key)`, or the context key hashed with `DERIVE_KEY_CONTEXT`) -/
+def modeKeyWords (sd : Nat) : Spec.Mode → CV
+  | .hash => Spec.IV
+  | .keyed k => wordsOfBytes 8 k
+  | .derive ctx => wordsOfBytes 8 (rootHash K (hashAllAtOnce K Spec.IV Spec.DERIVE_KEY_CONTEXT sd ctx))
+
+def modeFlags : Spec.Mode → UInt8
+  | .hash => 0
+  | .keyed _ => Spec.KEYED_HASH
+  | .derive _ => Spec.DERIVE_KEY_MATERIAL
+
+/-- the one-shot functions `hash`, `keyed_hash`, `derive_key` -/
+def oneShot (sd : Nat) (mode : Spec.Mode) (m : List UInt8) : List UInt8 :=
+  rootHash K (hashAllAtOnce K (modeKeyWords K sd mode) (modeFlags mode) sd m)
 
 /-- `struct Hasher` (the platform is the pair `K`, `sd` of model parameters) -/
 structure Hasher where
